@@ -137,6 +137,8 @@ def gen_structured(rng, worlds, heads, pos, kind, when, total=3, recover=True):
 def gen_random(rng, tier):
     worlds, heads = gen_config(rng)
     s = Script(rng, heads)
+    if rng.random() < 0.04:
+        s.ops.append(f"g{rng.randrange(len(heads))}")       # crafted history: global tick = u64::MAX
     n = rng.randint(4, 14 if tier == "quick" else 24)
     for _ in range(n):
         x = rng.random()
@@ -235,6 +237,11 @@ def to_term(line, ids):
             terms.append(f"OpElig {rk.hk(heads[h][0], heads[h][1])} {'true' if f[1] == '1' else 'false'}")
         elif c == "x":
             terms.append("OpSwapProv")
+        elif c == "g":
+            h = int(f[0])
+            i = rk.i[ids[(h, 0, 255)]]
+            tbl[i] = 0
+            terms.append(f"OpJumpGlobal {rk.hk(heads[h][0], heads[h][1])} {i}")
     t = ";".join(f"({i},{c})" for i, c in sorted(tbl.items()))
     ws = ";".join(str(rk.w[w]) for w in worlds)
     hs = ";".join(f"({rk.hk(w, h)},({'PAll' if pol == 'a' else 'PBudget ' + pol[1:]},{'true' if paused else 'false'}))"
@@ -299,6 +306,8 @@ def render_model(val, rk):
             toks.append("E" if a == 0 else "e")
         elif kind == 5:
             toks.append("X")
+        elif kind == 6:
+            toks.append("G:ok" if a == 0 else "G:unknown-worldline")
     toks.append(f"END[{render_dump(last, rk)}]")
     return "|".join(toks)
 
@@ -320,7 +329,7 @@ VIEW_PRE = PRE + ("Definition stepv (s : step) := (st_head s, st_count s, st_tic
                   "Definition is_pass (o : oout) : bool := let '(k, _, _, _) := o in k =? 2.\n"
                   "(* the state is printed after every pass and at the end only (printing dominates the run time) *)\n"
                   "Definition run_view tbl ws hs ops :=\n"
-                  "  let res := run_ops tstate (table_commit tbl) (rt_init [] ws hs) ops in\n"
+                  "  let res := run_ops tstate (table_commit tbl) (fun id => [id]) (rt_init [] ws hs) ops in\n"
                   "  (map (fun os => (outv (fst os), if is_pass (fst os) then [view (snd os)] else [])) res,\n"
                   "   view (last (map snd res) (rt_init [] ws hs))).\n")
 
@@ -358,9 +367,11 @@ def run(tier, seed, replay=None):
         "exercised through fingerprint equality by the harness on every failing pass",
         "hash-derived identities (submission id, ticketed-ingress id, run id, fault id) are kept as preimages; ingress ids "
         "are read from IngressEnvelope::ingress_id (content addressing is C08's subject)",
-        "FrontierTickOverflow / GlobalTickOverflow / a missing warp instance (EngineError::UnknownWarp) are modelled and "
-        "proved but cannot be produced through the public API (frontier ticks come from history lengths, "
-        "WorldlineState constructors validate the root instance): theorem only, plus the repository's own unit tests",
+        "GlobalTickOverflow IS produced through the public API (op g: restore_causal_runtime_history from a provenance "
+        "service holding one real commit whose commit_global_tick was rewritten to u64::MAX). FrontierTickOverflow and a "
+        "missing warp instance (EngineError::UnknownWarp) are modelled and proved but cannot be produced through the public "
+        "API (frontier ticks come from history lengths, WorldlineState constructors validate the root instance): theorem "
+        "only, plus the repository's own unit tests",
     ]
     r.cov["trusted_base"] = ["coqc 8.16.1 kernel + vm_compute", "python generator/renderer props/c09.py",
                              "harness c09.rs (abstraction: runtime/provenance/engine -> canonical dump and fingerprint)"]
@@ -430,11 +441,14 @@ def run(tier, seed, replay=None):
     r.cov["rule"] = ("scripted runs of the real WorldlineRuntime/ProvenanceService/Engine (1-3 worldlines x 1-4 heads, inbox "
                      "budgets, ticketed submissions) through the public API and of the Coq model on the same script; "
                      "non-trivial = at least one failing pass AND at least one committed head in the same run; every pass is "
-                     "fingerprinted before/after through public accessors by the harness")
+                     "fingerprinted before/after through public accessors by the harness; after every failing pass the harness also "
+                     "runs probe passes (no head / each head dormant) on a pre-pass copy and on the recovered post-failure "
+                     "runtime and requires identical results and fingerprints (hidden index / engine state)")
     r.cov["passes_on_impl"] = tot("passes")
     r.cov["failed_passes_on_impl"] = tot("failed")
     r.cov["head_commits_on_impl"] = tot("commits")
     r.cov["rejected_candidates_on_impl"] = tot("rejected")
+    r.cov["hidden_state_probe_passes_on_impl"] = 2 * tot("probes")
     kinds = {}
     for l in impl:
         for t in l.split("|"):
@@ -469,13 +483,14 @@ MANIFEST = {
              "(runtime_wf_preserved). Tie: the real WorldlineRuntime/ProvenanceService/Engine are driven through the public API "
              "on generated scripts (1-3 worldlines x 1-4 heads, budgets, ticketed submissions; failure injected at every "
              "canonical position, kinds: typed engine error, executor panic, footprint violation, unauthorized instance op, "
-             "correlation refusal, provenance tick gap; on first/middle/last pass; followed by recovery and further passes) "
+             "correlation refusal, provenance tick gap, global tick overflow via crafted history; on first/middle/last pass; followed by recovery and further passes) "
              "and compared with the model line by line; independently the harness fingerprints runtime + provenance + engine "
              "through public accessors before/after every pass and checks all-or-nothing, order, tick arithmetic, receipts, "
              "quarantine and recovery on the implementation alone."),
     "note": ("Trusted: Coq kernel + vm_compute; python generator/renderer; harness c09.rs (dump and fingerprint functions). "
              "PARTIAL: the engine's RuntimeCommitStateGuard (swap/restore on error and on unwind via Drop) is code, not model - "
              "covered only by fingerprint equality; hash-derived ids are kept as preimages; the model run uses an "
-             "order-preserving renaming of 256-bit ids. FrontierTickOverflow, GlobalTickOverflow and a missing warp instance "
-             "are modelled and proved but not producible through the public API (theorem + repository unit tests only)."),
+             "order-preserving renaming of 256-bit ids. GlobalTickOverflow is reached through restore_causal_runtime_history with "
+             "a crafted commit stamp; FrontierTickOverflow and a missing warp instance are modelled and proved but not "
+             "producible through the public API (theorem + repository unit tests only)."),
 }
